@@ -35,6 +35,21 @@ func runC05(r *Report) {
 			continue
 		}
 		sites := CallSites(fn, sendish...)
+		// a send may sit in an unexported pipe method the request function calls (its queued tail split
+		// off): then the call of that method must be behind the context test
+		isSendish := map[string]bool{}
+		for _, n := range sendish {
+			isSendish[n] = true
+		}
+		for _, cs := range Sites(fn, func(in ssa.Instruction) bool { _, ok := in.(*ssa.Call); return ok }) {
+			h := cs.Call().Common().StaticCallee()
+			if h == nil || h.Blocks == nil || isSendish[FuncName(h)] || isExportedName(h.Name()) || !strings.HasPrefix(FuncName(h), "rueidis.(*pipe).") {
+				continue
+			}
+			if len(CallSites(h, sendish...)) > 0 && helperOnlyCalledFrom(p, h, map[string]bool{name: true}, 1) {
+				sites = append(sites, cs)
+			}
+		}
 		r.Anchor("R05a", name+": enqueue/send sites", len(sites) > 0)
 		for _, s := range sites {
 			ok := false
